@@ -93,6 +93,7 @@ class Interp:
         self.attached = set()          # loop specs that attached on this path
         self.inline_only = False
         self.modular_calls = 0
+        self.opacity_events = []
         self.mbqi_fallback_ms = 0
         self.feas_rlimit = int(os.environ.get('PYVC_FEAS_RLIMIT', '100000'))
 
@@ -299,7 +300,8 @@ class Interp:
         parts = qual.split(".")
         v = mod.attrs.get(parts[0])
         if v is None:
-            raise Unsupported(f"{target}: no such definition in the current source")
+            why = "; ".join(mod.attrs.get("__unsupported__", [])[:2])
+            raise Unsupported(f"{target}: no such definition in the current source" + (f" (module statements the engine could not execute: {why})" if why else ""))
         for p in parts[1:]:
             if isinstance(v, ClassV):
                 v, _ = v.lookup(p)
